@@ -1,5 +1,6 @@
 import SpecKitV.Lemmas.AnalyzerGlue
 import SpecKitV.Props.C13
+import SpecKitV.Props.KernelHeapGen
 import SpecKitV.Props.C13Finite
 
 #print axioms Model.channelOf_transpose
@@ -15,6 +16,11 @@ import SpecKitV.Props.C13Finite
 #print axioms ctor_written_ge
 #print axioms ctor_result_fresh
 #print axioms inplace_would_write_fortran_Nx2
+#print axioms cRun_sub_aRun
+#print axioms np_kernels_abstract_clean
+#print axioms np_kernels_write_no_caller_buffer
+#print axioms view_gather_would_write
+#print axioms np_kernels_do_write
 #print axioms C13Finite.densities_finite
 #print axioms C13Finite.coherence_finite
 #print axioms C13Finite.tf_finite
